@@ -604,6 +604,71 @@ fn rand_program(p: &Params, n: usize, rng: &mut Rng) -> Vec<u8> {
     out
 }
 
+/// Multi-sequence mixes of live sequences, sequences interrupted by a tombstone / lower address and
+/// sequences that are entirely at a tombstone address (input generator, no expectations).
+fn rand_seq_program(p: &Params, nseq: usize, rng: &mut Rng) -> Vec<u8> {
+    let mut out = Vec::new();
+    let top = if p.asz == 8 { u64::MAX } else { (1u64 << (8 * p.asz)) - 1 };
+    let ext = |out: &mut Vec<u8>, opc: u8, payload: &[u8]| {
+        out.push(0);
+        uleb(out, (1 + payload.len()) as u64);
+        out.push(opc);
+        out.extend_from_slice(payload);
+    };
+    let set_addr = |out: &mut Vec<u8>, v: u64| {
+        let mut a = Vec::new();
+        fixed(&mut a, v, p.asz as usize, p.le);
+        ext(out, 2, &a);
+    };
+    let row = |out: &mut Vec<u8>, rng: &mut Rng| {
+        // a row-emitting instruction: a special opcode (copy when there are standard opcodes, sometimes)
+        if p.obase > 1 && rng.chance(1, 3) {
+            out.push(1);
+        } else {
+            out.push(rng.range(p.obase as u64, 255) as u8);
+        }
+    };
+    for k in 0..nseq {
+        let base = if rng.chance(1, 4) { 0 } else { rng.next() & (top >> 2) };
+        let tomb = *rng.pick(&[top, top - 1]);
+        match rng.below(5) {
+            0 | 1 => {
+                // live
+                set_addr(&mut out, base);
+                for _ in 0..1 + rng.below(3) {
+                    row(&mut out, rng);
+                }
+            }
+            2 | 3 => {
+                // live, then a tombstone or lower address, then possibly more (swallowed) rows
+                set_addr(&mut out, base.max(16));
+                for _ in 0..1 + rng.below(3) {
+                    row(&mut out, rng);
+                }
+                set_addr(&mut out, if rng.chance(1, 2) { tomb } else { rng.below(base.max(16)) });
+                for _ in 0..rng.below(3) {
+                    row(&mut out, rng);
+                }
+            }
+            _ => {
+                // entirely at a tombstone address
+                set_addr(&mut out, tomb);
+                for _ in 0..1 + rng.below(3) {
+                    row(&mut out, rng);
+                }
+            }
+        }
+        // close the sequence (sometimes twice; the last one sometimes not at all)
+        if !(k + 1 == nseq && rng.chance(1, 4)) {
+            ext(&mut out, 1, &[]);
+            if rng.chance(1, 8) {
+                ext(&mut out, 1, &[]);
+            }
+        }
+    }
+    out
+}
+
 fn record(out: &str, a: &Args) {
     let mut rng = Rng::new(a.num("--seed", 1));
     let n = a.num("--n", 40) as usize;
@@ -613,9 +678,10 @@ fn record(out: &str, a: &Args) {
     for i in 0..n {
         let p = rand_params(&mut rng);
         let l = 1 + rng.below(len as u64) as usize;
-        let prog = rand_program(&p, l, &mut rng);
+        // every third unit is a directed multi-sequence tombstone mix
+        let prog = if i % 3 == 2 { rand_seq_program(&p, 2 + rng.below(4) as usize, &mut rng) } else { rand_program(&p, l, &mut rng) };
         let unit = build_unit(&p, &prog, &mut rng);
-        traced(&unit, 0, p.asz, p.le, &mut evs, &format!("rand{}", i), usize::MAX);
+        traced(&unit, 0, p.asz, p.le, &mut evs, &format!("{}{}", if i % 3 == 2 { "seq" } else { "rand" }, i), usize::MAX);
     }
     // arbitrary bytes as a program (monotonicity / width clause)
     for i in 0..nraw {
